@@ -78,6 +78,30 @@ func (t *Teamserver) LinkAdd(ParentAgent *agent.Agent, LinkAgent *agent.Agent) e
 	return nil
 }
 
+// LinkMove
+// takes a (still alive) agent out of its previous parent's links, if it has one, and saves
+// the link to its new parent in one database transaction.
+func (t *Teamserver) LinkMove(OldParentAgent *agent.Agent, ParentAgent *agent.Agent, LinkAgent *agent.Agent) error {
+	var ParentAgentID, _ = strconv.ParseInt(ParentAgent.NameID, 16, 64)
+	var LinkAgentID, _ = strconv.ParseInt(LinkAgent.NameID, 16, 64)
+
+	if OldParentAgent != nil {
+		for i := range OldParentAgent.Pivots.Links {
+			if OldParentAgent.Pivots.Links[i].NameID == LinkAgent.NameID {
+				OldParentAgent.Pivots.Links = append(OldParentAgent.Pivots.Links[:i], OldParentAgent.Pivots.Links[i+1:]...)
+				break
+			}
+		}
+	}
+
+	err := t.DB.LinkMove(int(ParentAgentID), int(LinkAgentID))
+	if err != nil {
+		logger.Error("Could not move link in database: " + err.Error())
+	}
+
+	return nil
+}
+
 func (t *Teamserver) LinkRemove(ParentAgent *agent.Agent, LinkAgent *agent.Agent, UpdateLinks bool) {
 	var ParentAgentID, _ = strconv.ParseInt(ParentAgent.NameID, 16, 64)
 	var LinkAgentID,   _ = strconv.ParseInt(LinkAgent.NameID, 16, 64)
